@@ -9,7 +9,8 @@
 From Coq Require Import List ZArith QArith Qcanon Bool Reals.
 From Coquelicot Require Import Coquelicot.
 From Inovesa Require Import Base.FieldKit Base.Sums Base.Float32 Base.RInst Gen.Gen_Coeffs
-  Gen.Gen_StepOrder Gen.Gen_WakeScale Model.Kick Model.StepKinds Model.Haiss
+  Gen.Gen_StepOrder Gen.Gen_WakeScale Model.Kick Model.StepKinds Model.RunKinds Gen.Gen_WakeUpdate
+  Gen.Gen_Identity Gen.Gen_KickIndex Model.Copy Model.WakeUpdate Model.Haiss
   Proofs.WeightsP Proofs.KickP Proofs.ForceP Proofs.StepP Proofs.HaissR.
 Import ListNotations.
 Local Open Scope Z_scope.
@@ -47,77 +48,175 @@ Theorem C05_grid_rows :
 Proof. exact apply_y_is_krow. Qed.
 Print Assumptions C05_grid_rows.
 
-(** force law with the offsets as the code stores them: WakePotentialMap::update copies the
-    wake potential into the kick map ([ow = wp i]); the energy kicks at the head of the generated
-    step order keep the charge of row (b,x) and move its first moment by minus the sum of the
-    two effective offsets *)
+(** the rows of the two energy kicks AS THE SOURCE HAS THEM NOW, for every bunch b: the wake kick
+    applied after WakePotentialMap::update() (generated program: copy of the nb*n wake potentials,
+    then KickMap::updateSM) through KickMap::apply's y branch (generated index expressions; the table
+    block is selected by min(b,_lastbunch) with the generated initialiser of _lastbunch) moves row
+    (b,x) with bunch b's OWN wake potential entry wp(b*n+x); the RF kick (offsets written for the
+    block of every bunch) with rnd32(t*rnd32(xc-x)) *)
+Theorem C05_wake_grid_rows :
+  forall n nb it (wp D : Z -> Qc) b x y,
+    valid_it it -> 0 < n -> 0 <= b < nb -> 0 <= x < n ->
+    rowD n (gkick_wake n nb it wp D) b x y = krow n it (wp (b * n + x)) (rowD n D b x) y.
+Proof. exact gkick_wake_rows. Qed.
+Print Assumptions C05_wake_grid_rows.
+
+Theorem C05_rf_grid_rows :
+  forall n nb it (t xc : Qc) (D : Z -> Qc) b x y,
+    valid_it it -> 0 < n -> 0 <= b < nb -> 0 <= x < n ->
+    rowD n (gkick_rf n nb it t xc D) b x y =
+    krow n it (rf_offsets nb n t xc (b * n + x)) (rowD n D b x) y /\
+    rf_offsets nb n t xc (b * n + x) = rnd32 (t * rnd32 (xc - Qcz x))%Qc.
+Proof. exact gkick_rf_rows_offsets. Qed.
+Print Assumptions C05_rf_grid_rows.
+
+(** force law with the offsets as the code stores them, for EVERY bunch b: the energy kicks at the
+    head of the generated step order, applied to the grid as the code applies them
+    ([energy_kicks]: wake kick, RF kick), keep the charge of row (b,x) and move its first moment by
+    minus the sum of the two effective offsets; the wake offset is W_b(x) = wp(b*n+x) =
+    _wakepotential[b][x], bunch b's own wake potential (the entry the generated copy left where the
+    generated block selection reads for bunch b) *)
 Theorem C05_wake_kick_force_law_eff :
-  forall n nb it (wp old : Z -> Qc) (t xc : Qc) (D : Z -> Qc) b x a bb,
-    valid_it it -> 2 <= it -> 0 < n < 2 ^ 30 -> 0 < nb -> 0 <= b < nb -> 0 <= x < n ->
+  forall n nb it (wp : Z -> Qc) (t xc : Qc) (D : Z -> Qc) b x a bb,
+    valid_it it -> 2 <= it -> 0 < n < 2 ^ 30 -> 0 <= b < nb -> 0 <= x < n ->
     let i := b * n + x in
-    let ow := wake_update nb n wp old i in
-    let orf := rf_offsets n t xc i in
+    let W := wp i in
+    let orf := rf_offsets nb n t xc i in
     let r := rowD n D b x in
     suppQ r a bb ->
-    row_fits n it ow a bb ->
-    row_fits n it orf (a - shift_hi n it ow) (bb - shift_lo n it ow) ->
-    let r' := row_kicks n it (kick_off ow orf) (ykick_prefix step_order) r in
-    ow = wp i /\
+    row_fits n it W a bb ->
+    row_fits n it orf (a - shift_hi n it W) (bb - shift_lo n it W) ->
+    let r' := rowD n (energy_kicks n nb it wp t xc (ykick_prefix step_order) D) b x in
+    wp_flat nb n b x = i /\
+    wake_offsets n nb it wp (Z.min b (km_lastbunch nb) * wk_pd n nb + x) = W /\
     M0 n r' = M0 n r /\
-    M1 n r' = (M1 n r - (eff_off n (wp i) + eff_off n orf) * M0 n r)%Qc.
+    M1 n r' = (M1 n r - (eff_off n W + eff_off n orf) * M0 n r)%Qc.
 Proof. exact wake_kick_force_law_eff. Qed.
 Print Assumptions C05_wake_kick_force_law_eff.
 
-(** literal form (single bunch / bunch 0, float operations exact on the stored values):
-    the row-wise mean energy index changes by t*(x - xc) - W(x) cells *)
+(** literal form, for EVERY bunch b (float operations exact on the stored values): the row-wise
+    mean energy index of row x of bunch b changes by t*(x - xc) - W_b(x) cells *)
 Theorem C05_wake_kick_force_law :
-  forall n nb it (wp old : Z -> Qc) (t xc : Qc) (D : Z -> Qc) x a bb,
-    valid_it it -> 2 <= it -> 0 < n < 2 ^ 30 -> 0 < nb -> 0 <= x < n ->
-    let ow := wake_update nb n wp old x in
-    let orf := rf_offsets n t xc x in
-    let r := rowD n D 0 x in
+  forall n nb it (wp : Z -> Qc) (t xc : Qc) (D : Z -> Qc) b x a bb,
+    valid_it it -> 2 <= it -> 0 < n < 2 ^ 30 -> 0 <= b < nb -> 0 <= x < n ->
+    let W := wp (b * n + x) in
+    let orf := rf_offsets nb n t xc (b * n + x) in
+    let r := rowD n D b x in
     suppQ r a bb ->
-    row_fits n it ow a bb ->
-    row_fits n it orf (a - shift_hi n it ow) (bb - shift_lo n it ow) ->
+    row_fits n it W a bb ->
+    row_fits n it orf (a - shift_hi n it W) (bb - shift_lo n it W) ->
     rnd32 (xc - Qcz x)%Qc = (xc - Qcz x)%Qc ->
     rnd32 (t * (xc - Qcz x))%Qc = (t * (xc - Qcz x))%Qc ->
-    rnd32 (Qcz (n / 2) + wp x)%Qc = (Qcz (n / 2) + wp x)%Qc ->
+    rnd32 (Qcz (n / 2) + W)%Qc = (Qcz (n / 2) + W)%Qc ->
     rnd32 (Qcz (n / 2) + t * (xc - Qcz x))%Qc = (Qcz (n / 2) + t * (xc - Qcz x))%Qc ->
-    let r' := row_kicks n it (kick_off ow orf) (ykick_prefix step_order) r in
+    let r' := rowD n (energy_kicks n nb it wp t xc (ykick_prefix step_order) D) b x in
     M0 n r' = M0 n r /\
-    M1 n r' = (M1 n r + (t * (Qcz x - xc) - wp x) * M0 n r)%Qc.
+    M1 n r' = (M1 n r + (t * (Qcz x - xc) - W) * M0 n r)%Qc.
 Proof. exact wake_kick_force_law. Qed.
 Print Assumptions C05_wake_kick_force_law.
+
+(** the same two energy kicks on one row with the offsets given as such (row level, no grid) *)
+Theorem C05_force_law_row :
+  forall n it (ow orf : Qc) (r : Z -> Qc) a b,
+    valid_it it -> 2 <= it -> 0 < n < 2 ^ 30 -> suppQ r a b ->
+    row_fits n it ow a b ->
+    row_fits n it orf (a - shift_hi n it ow) (b - shift_lo n it ow) ->
+    let r' := row_kicks n it (kick_off ow orf) (ykick_prefix step_order) r in
+    M0 n r' = M0 n r /\
+    M1 n r' = (M1 n r - (eff_off n ow + eff_off n orf) * M0 n r)%Qc.
+Proof. exact force_law_row. Qed.
+Print Assumptions C05_force_law_row.
 
 (** non-vacuity: n = 12, four-point interpolation, W = 1/4 cell, t = 1/8, xc = 11/2, row x = 4,
     data 3,5 in cells 5,6: every hypothesis holds and the mean moves by 1/8*(4-11/2) - 1/4 *)
 Example C05_force_law_hypotheses :
-  let ow := wake_update 1 12 ex_wp (fun _ => 0%Qc) 4 in
-  let orf := rf_offsets 12 ex_t ex_xc 4 in
-  row_fits 12 4 ow 5 7 /\
-  row_fits 12 4 orf (5 - shift_hi 12 4 ow) (7 - shift_lo 12 4 ow) /\
+  let W := ex_wp (0 * 12 + 4) in
+  let orf := rf_offsets 1 12 ex_t ex_xc (0 * 12 + 4) in
+  suppQ (rowD 12 ex_D 0 4) 5 7 /\
+  row_fits 12 4 W 5 7 /\
+  row_fits 12 4 orf (5 - shift_hi 12 4 W) (7 - shift_lo 12 4 W) /\
   rnd32 (ex_xc - Qcz 4)%Qc = (ex_xc - Qcz 4)%Qc /\
   rnd32 (ex_t * (ex_xc - Qcz 4))%Qc = (ex_t * (ex_xc - Qcz 4))%Qc /\
-  rnd32 (Qcz (12 / 2) + ex_wp 4)%Qc = (Qcz (12 / 2) + ex_wp 4)%Qc /\
+  rnd32 (Qcz (12 / 2) + W)%Qc = (Qcz (12 / 2) + W)%Qc /\
   rnd32 (Qcz (12 / 2) + ex_t * (ex_xc - Qcz 4))%Qc = (Qcz (12 / 2) + ex_t * (ex_xc - Qcz 4))%Qc.
-Proof.
-  cbv zeta. repeat split; try (apply Qc_is_canon; vm_compute; reflexivity);
-    vm_compute; try discriminate; reflexivity.
-Qed.
+Proof. exact force_law_example_hypotheses. Qed.
 
 Example C05_force_law_instance :
-  let ow := wake_update 1 12 ex_wp (fun _ => 0%Qc) 4 in
-  let orf := rf_offsets 12 ex_t ex_xc 4 in
   let r := rowD 12 ex_D 0 4 in
-  let r' := row_kicks 12 4 (kick_off ow orf) (ykick_prefix step_order) r in
+  let r' := rowD 12 (energy_kicks 12 1 4 ex_wp ex_t ex_xc (ykick_prefix step_order) ex_D) 0 4 in
   M0 12 r' = Qcz 8 /\ (M1 12 r' - M1 12 r)%Qc = (Q2Qc (-7 # 16) * Qcz 8)%Qc.
 Proof. cbv zeta. split; apply Qc_is_canon; vm_compute; reflexivity. Qed.
 
-(** whole grid, the executable model run in the generated order, whatever the Fokker-Planck map
-    computes: the grid handed to it ([g3], after wake kick, RF kick and drift) has the bunch
-    charge of the input and its energy moment differs by minus Sum_x (eff W(x) + eff o_rf(x)) *
-    (charge of row x): the drift moves content along q only.  [E1 n D b] = Sum_x Sum_y y*D(b,x,y). *)
+(** non-vacuity for a bunch other than the first, with UNEQUAL wakes: two bunches, W_0 = 1/4 cell,
+    W_1 = 1/2 cell; row 4 of bunch 1 (data 3,5 in cells 5,6) satisfies every hypothesis and its mean
+    moves by 1/8*(4-11/2) - 1/2 = -11/16 - bunch 1's own wake, not bunch 0's (which would give -7/16);
+    row 4 of bunch 0 (data 2,1) moves by -7/16 *)
+Example C05_force_law_two_bunches_hypotheses :
+  let W := ex2_wp (1 * 12 + 4) in
+  let orf := rf_offsets 2 12 ex_t ex_xc (1 * 12 + 4) in
+  suppQ (rowD 12 ex2_D 1 4) 5 7 /\
+  row_fits 12 4 W 5 7 /\
+  row_fits 12 4 orf (5 - shift_hi 12 4 W) (7 - shift_lo 12 4 W) /\
+  rnd32 (ex_xc - Qcz 4)%Qc = (ex_xc - Qcz 4)%Qc /\
+  rnd32 (ex_t * (ex_xc - Qcz 4))%Qc = (ex_t * (ex_xc - Qcz 4))%Qc /\
+  rnd32 (Qcz (12 / 2) + W)%Qc = (Qcz (12 / 2) + W)%Qc /\
+  rnd32 (Qcz (12 / 2) + ex_t * (ex_xc - Qcz 4))%Qc = (Qcz (12 / 2) + ex_t * (ex_xc - Qcz 4))%Qc /\
+  ex2_wp (1 * 12 + 4) <> ex2_wp (0 * 12 + 4).
+Proof. exact force_law_example2_hypotheses. Qed.
+
+Example C05_force_law_two_bunches_instance :
+  let D' := energy_kicks 12 2 4 ex2_wp ex_t ex_xc (ykick_prefix step_order) ex2_D in
+  (M0 12 (rowD 12 D' 1 4) = Qcz 8 /\
+   (M1 12 (rowD 12 D' 1 4) - M1 12 (rowD 12 ex2_D 1 4))%Qc = (Q2Qc (-11 # 16) * Qcz 8)%Qc) /\
+  (M0 12 (rowD 12 D' 0 4) = Qcz 3 /\
+   (M1 12 (rowD 12 D' 0 4) - M1 12 (rowD 12 ex2_D 0 4))%Qc = (Q2Qc (-7 # 16) * Qcz 3)%Qc).
+Proof. cbv zeta. repeat split; apply Qc_is_canon; vm_compute; reflexivity. Qed.
+
+(** whole grid, the executable model run in the generated order AS THE CODE RUNS IT (wake kick's
+    table from WakePotentialMap::update on the wake potentials [wp], RF kick's table from the RF
+    offsets of every bunch's block, generated y branch), whatever the Fokker-Planck map computes,
+    for EVERY bunch b: the grid handed to the Fokker-Planck map ([g3], after wake kick, RF kick
+    and drift) has bunch b's charge of the input and its energy moment differs by
+    minus Sum_x (eff W_b(x) + eff o_rf(x)) * (charge of row x of bunch b), W_b(x) = wp(b*n+x): the
+    drift moves content along q only.  [E1 n D b] = Sum_x Sum_y y*D(b,x,y). *)
 Theorem C05_full_step_energy :
+  forall n nb it (wp : list Qc) (t xc : Qc) (dro : list Qc) (fp : list Qc -> list Qc)
+         (data g1 g2 g3 g4 : list Qc) b,
+    valid_it it -> 2 <= it -> 0 < n < 2 ^ 30 -> 0 <= b < nb ->
+    run_maps_code n nb it wp t xc dro fp step_order data = [g1; g2; g3; g4] ->
+    (forall x, 0 <= x < n -> exists a bb,
+        suppQ (rowD n (getQ data) b x) a bb /\
+        row_fits n it (getQ wp (b * n + x)) a bb /\
+        row_fits n it (rf_offsets nb n t xc (b * n + x)) (a - shift_hi n it (getQ wp (b * n + x)))
+                                                         (bb - shift_lo n it (getQ wp (b * n + x)))) ->
+    (forall y, 0 <= y < n -> exists c d,
+        suppQ (colD n (getQ g2) b y) c d /\ row_fits n it (getQ dro y) c d) ->
+    E1 n (getQ g3) b =
+      (E1 n (getQ data) b - sumQ 0 (Z.to_nat n)
+         (fun x => ((eff_off n (getQ wp (b * n + x)) + eff_off n (rf_offsets nb n t xc (b * n + x)))
+                    * M0 n (rowD n (getQ data) b x))%Qc))%Qc
+    /\ Q0 n (getQ g3) b = Q0 n (getQ data) b
+    /\ g4 = fp g3.
+Proof. exact step_model_energy. Qed.
+Print Assumptions C05_full_step_energy.
+
+(** two bunches with unequal wakes (1/4 and 1/2 cell), the hypotheses hold for bunch 1 *)
+Example C05_full_step_two_bunches_hypotheses :
+  exists g1 g2 g3 g4,
+    run_maps_code 8 2 2 ex2s_wp ex2s_t ex2s_xc exs_dro (fun d => d) step_order ex2s_data = [g1; g2; g3; g4] /\
+    (forall x, 0 <= x < 8 -> exists a bb,
+        suppQ (rowD 8 (getQ ex2s_data) 1 x) a bb /\
+        row_fits 8 2 (getQ ex2s_wp (1 * 8 + x)) a bb /\
+        row_fits 8 2 (rf_offsets 2 8 ex2s_t ex2s_xc (1 * 8 + x)) (a - shift_hi 8 2 (getQ ex2s_wp (1 * 8 + x)))
+                                                                 (bb - shift_lo 8 2 (getQ ex2s_wp (1 * 8 + x)))) /\
+    (forall y, 0 <= y < 8 -> exists c d,
+        suppQ (colD 8 (getQ g2) 1 y) c d /\ row_fits 8 2 (getQ exs_dro y) c d) /\
+    getQ ex2s_wp (1 * 8 + 3) <> getQ ex2s_wp (0 * 8 + 3).
+Proof. exact step_example_two_bunches. Qed.
+
+(** the same statement with the offset vectors of the two energy kicks given as such (any vectors;
+    closed-form tables of Model/Kick.v), every bunch b *)
+Theorem C05_full_step_energy_offsets :
   forall n nb it (wo rfo dro : list Qc) (fp : list Qc -> list Qc) (data g1 g2 g3 g4 : list Qc) b,
     valid_it it -> 2 <= it -> 0 < n < 2 ^ 30 -> 0 < nb -> 0 <= b < nb ->
     run_maps n nb it wo rfo dro fp step_order data = [g1; g2; g3; g4] ->
@@ -134,8 +233,8 @@ Theorem C05_full_step_energy :
                     * M0 n (rowD n (getQ data) b x))%Qc))%Qc
     /\ Q0 n (getQ g3) b = Q0 n (getQ data) b
     /\ g4 = fp g3.
-Proof. exact step_model_energy. Qed.
-Print Assumptions C05_full_step_energy.
+Proof. exact step_model_energy_offsets. Qed.
+Print Assumptions C05_full_step_energy_offsets.
 
 Example C05_full_step_hypotheses :
   exists g1 g2 g3 g4,
